@@ -83,6 +83,9 @@ class ExprMixin:
         if n in st.locals:
             yield st, st.locals[n]
             return
+        if cx.spec is not None and n.startswith("loc_") and n[4:] in st.locals:
+            yield st, st.locals[n[4:]]      # final value of a local of the verified function
+            return
         yield st, self.global_name(st, n, cx)
 
     def global_name(self, st, n, cx):
